@@ -54,6 +54,27 @@ def mkIbl (ps : Array Nat) : Array Nat :=
 
 def FB.ofPrimes (ps : Array Nat) : FB := { primes := ps, ibl := mkIbl ps }
 
+/-- the `idx_by_log` table exactly as `FBase::new` fills it while it pushes the primes:
+```
+if l >= log { for idx in log..=l { idx_by_log[idx] = primes.len(); } log = l + 1; }   // l = bit length of p
+...
+for idx in log..idx_by_log.len() { idx_by_log[idx] = primes.len(); }
+```
+state = (table, log, number of primes pushed so far); a write outside the 26 entries is a panic. -/
+def fbaseIblStep (st : Array Nat × Nat × Nat) (p : Nat) : Option (Array Nat × Nat × Nat) :=
+  let (ibl, log, cnt) := st
+  let l := bitlen p
+  if l ≥ log then do
+    let ibl ← (List.range' log (l + 1 - log)).foldlM (fun (a : Array Nat) idx =>
+      if idx < a.size then some (a.setIfInBounds idx cnt) else none) ibl
+    some (ibl, l + 1, cnt + 1)
+  else some (ibl, log, cnt + 1)
+
+def fbaseIbl (ps : List Nat) : Option (Array Nat) := do
+  let (ibl, log, cnt) ← ps.foldlM fbaseIblStep (Array.replicate 26 0, 0, 0)
+  (List.range' log (26 - log)).foldlM (fun (a : Array Nat) idx =>
+    if idx < a.size then some (a.setIfInBounds idx cnt) else none) ibl
+
 /-! ### SieveTable -/
 
 structure Table where
@@ -304,6 +325,20 @@ def new (offset : Int) (nblocks : Nat) (fb : FB) (r1 r2 : Array Nat)
 /-- `recycle` -/
 def recycle (s : State) : Array Table × Array LTable := (s.tables, s.ltables)
 
+/-- `rehash`: all hits of one prime of the second class are registered again. -/
+def rehashTable (r1 r2 : Array Nat) (interval p pidx : Nat) (table : Table) : Option Table := do
+  let o1 ← r1[pidx]?
+  let o2 ← r2[pidx]?
+  let offsets ← vlargeOffsets interval p o1 o2
+  offsets.foldlM (fun t off => t.add off (pidx % 2 ^ 32)) table
+
+/-- `rehash`: same for a prime of the third class. -/
+def rehashLTable (r1 r2 : Array Nat) (interval p pidx : Nat) (table : LTable) : Option LTable := do
+  let o1 ← r1[pidx]?
+  let o2 ← r2[pidx]?
+  let offsets ← vlargeOffsets interval p o1 o2
+  offsets.foldlM (fun t off => t.add off pidx) table
+
 /-- body of the loop of `rehash` over the factor base. -/
 def rehashStep (fb : FB) (r1 r2 : Array Nat) (interval : Nat)
     (st : Array Table × Array LTable) (pidx : Nat) : Option (Array Table × Array LTable) := do
@@ -315,18 +350,10 @@ def rehashStep (fb : FB) (r1 r2 : Array Nat) (interval : Nat)
     if l < VLARGE_LOG then
       if l < LARGE_LOG then none                                     -- l - LARGE_PRIME_LOG underflows
       else
-        let tables ← modifyM tables (l - LARGE_LOG) fun table => do
-          let o1 ← r1[pidx]?
-          let o2 ← r2[pidx]?
-          let offsets ← vlargeOffsets interval p o1 o2
-          offsets.foldlM (fun t off => t.add off (pidx % 2 ^ 32)) table
+        let tables ← modifyM tables (l - LARGE_LOG) (rehashTable r1 r2 interval p pidx)
         some (tables, ltables)
     else
-      let ltables ← modifyM ltables (l - VLARGE_LOG) fun table => do
-        let o1 ← r1[pidx]?
-        let o2 ← r2[pidx]?
-        let offsets ← vlargeOffsets interval p o1 o2
-        offsets.foldlM (fun t off => t.add off pidx) table
+      let ltables ← modifyM ltables (l - VLARGE_LOG) (rehashLTable r1 r2 interval p pidx)
       some (tables, ltables)
 
 /-- `rehash(roots)` -/
@@ -511,22 +538,14 @@ def factorsAt (fb : FB) (s : State) (r1 r2 : Array Nat) (res : List Nat) : Optio
 
 /-! ### fbase::cofactor -/
 
-/-- `fbase::certainly_composite(n)` (Euler/Fermat test to base 2 on the Montgomery routines of C07). -/
-def ccLoop (n ninv : Nat) : Nat → Nat → Nat → Nat → Option Nat
-  | 0, _, _, _ => none
-  | f + 1, x, sq, e =>
-    if e = 0 then some x
-    else do
-      let x' ← if e % 2 = 1 then Mg64.mgMul n ninv x sq else some x
-      let sq' ← Mg64.mgMul n ninv sq sq
-      ccLoop n ninv f x' sq' (e / 2)
-
+/-- `fbase::certainly_composite(n)` (Fermat test to base 2 on the Montgomery routines of C07; the
+square-and-multiply loop is the one of `isprime64`: `Mg64.powLoop`). -/
 def certainlyComposite (n : Nat) : Option Bool :=
   if n % 2 = 0 then some (decide (n > 2))
   else do
     let ninv ← Mg64.mg2adicInv n
     let sq ← Mg64.mgMul n ninv 2 2
-    let x ← ccLoop n ninv 65 2 sq (n / 2)
+    let x ← Mg64.powLoop n ninv 65 2 sq (n / 2)
     some (x ≠ 2)
 
 /-- `loop { (q, r) = divmod(cofactor); if r == 0 { cofactor = q; exp += 1 } else break }` -/
